@@ -9,6 +9,8 @@
 #include <unifex/bulk_transform.hpp>
 #include <unifex/execution_policy.hpp>
 #include <unifex/find_if.hpp>
+#include <unifex/get_execution_policy.hpp>
+#include <unifex/get_stop_token.hpp>
 #include <unifex/inline_scheduler.hpp>
 #include <unifex/just.hpp>
 #include <unifex/single_thread_context.hpp>
@@ -23,10 +25,70 @@ namespace {
 
 constexpr int kMaxN = 1200;
 
+// A user scheduler that customises bulk_schedule and really runs set_next concurrently (the library's own
+// schedulers all use the default, sequential bulk_schedule): 2-3 worker threads claim indices in
+// iteration-space order and test the stop token before every claim, so that a stop request cancels later
+// indices only (the assumption find_if(par) documents). Sequential under seq/unseq policies.
+struct par_sched {
+  int workers = 2;
+  struct schedule_sender {
+    template <template <class...> class V, template <class...> class T> using value_types = V<T<>>;
+    template <template <class...> class V> using error_types = V<std::exception_ptr>;
+    static constexpr bool sends_done = false;
+    template <class R> struct op { R r; void start() noexcept { unifex::set_value(std::move(r)); } };
+    template <class R> op<unifex::remove_cvref_t<R>> connect(R&& r) const { return {(R &&) r}; }
+  };
+  schedule_sender schedule() const noexcept { return {}; }
+  friend bool operator==(par_sched, par_sched) noexcept { return true; }
+  friend bool operator!=(par_sched, par_sched) noexcept { return false; }
+
+  template <class Integral>
+  struct bulk_sender {
+    template <template <class...> class V, template <class...> class T> using value_types = V<T<>>;
+    template <template <class...> class V, template <class...> class T> using next_types = V<T<Integral>>;
+    template <template <class...> class V> using error_types = V<std::exception_ptr>;
+    static constexpr bool sends_done = true;
+    Integral count;
+    int workers;
+    template <class R>
+    struct op {
+      Integral count;
+      int workers;
+      R r;
+      Integral next{0};
+      bool cancelled = false;
+      void start() noexcept {
+        using policy_t = unifex::remove_cvref_t<decltype(unifex::get_execution_policy(r))>;
+        constexpr bool par = unifex::is_one_of_v<policy_t, unifex::parallel_policy, unifex::parallel_unsequenced_policy>;
+        auto tok = unifex::get_stop_token(r);
+        auto work = [this, tok] {
+          for (;;) {
+            if (tok.stop_requested()) { usim::np_scope np; if (next < count) cancelled = true; return; }
+            Integral i;
+            { usim::np_scope np; if (next >= count) return; i = next++; }
+            unifex::set_next(r, Integral(i));
+          }
+        };
+        if constexpr (par) {
+          std::thread th[3];
+          for (int k = 0; k < workers; ++k) th[k] = std::thread(work);
+          for (int k = 0; k < workers; ++k) th[k].join();
+        } else {
+          work();
+        }
+        if (cancelled) unifex::set_done(std::move(r)); else unifex::set_value(std::move(r));
+      }
+    };
+    template <class R> op<unifex::remove_cvref_t<R>> connect(R&& r) const { return {count, workers, (R &&) r}; }
+  };
+  template <class Integral>
+  friend bulk_sender<Integral> tag_invoke(unifex::tag_t<unifex::bulk_schedule>, par_sched s, Integral n) noexcept { return {n, s.workers}; }
+};
+
 struct BWorld {
   int n = 0;
   int policy = 0;   // 0 seq, 1 par, 2 unseq, 3 par_unseq
-  int sched = 0;    // 0 inline, 1 single_thread_context, 2 static_thread_pool
+  int sched = 0;    // 0 inline, 1 single_thread_context, 2 static_thread_pool, 3 harness parallel bulk scheduler
   int stop_mode = 0;  // 0 none, 1 before start, 2 from inside index k, 3 from another thread
   int stop_at = 0, stop_yields = 0;
   int visits[kMaxN];
@@ -108,7 +170,8 @@ void body_bulk(void*) {
   { usim::np_scope np; w = new BWorld(); memset(w->visits, 0, sizeof w->visits); }
   w->n = pick_n();
   w->policy = draw(4);
-  w->sched = draw(3);
+  w->sched = draw(usim_param_int("parsched", 0) ? 5 : 3);
+  if (w->sched > 3) w->sched = 3;
   int sm = draw(8);
   w->stop_mode = sm < 3 ? 0 : sm < 4 ? 1 : sm < 7 ? 2 : 3;
   w->stop_at = w->n ? draw(w->n) : 0;
@@ -130,11 +193,13 @@ void body_bulk(void*) {
     ctx.construct();
     run_bulk_policy(w, ctx->get_scheduler());
     ctx.destroy();
-  } else {
+  } else if (w->sched == 2) {
     arena_box<unifex::static_thread_pool> pool;
     pool.construct(2u);
     run_bulk_policy(w, pool->get_scheduler());
     pool.destroy();
+  } else {
+    run_bulk_policy(w, par_sched{2 + draw(2)});
   }
   {
     usim::np_scope np;
@@ -194,7 +259,8 @@ void body_find(void*) {
   int r = draw(5);
   w->n = r < 2 ? pick_n() : r < 3 ? 120 + draw(900) : draw(200);
   w->policy = draw(2);  // 0 seq, 1 par
-  w->sched = draw(3);
+  w->sched = draw(usim_param_int("parsched", 0) ? 5 : 3);
+  if (w->sched > 3) w->sched = 3;
   // an arena block of exactly n ints: dereferencing anything outside trips the red zones
   w->data = (int*)usim_alloc((size_t)(w->n ? w->n : 1) * sizeof(int));
   for (int i = 0; i < w->n; ++i) w->data[i] = 1000 + i;
@@ -212,7 +278,8 @@ void body_find(void*) {
   auto go = [&](auto sched) { if (w->policy) run_find(w, sched, unifex::par); else run_find(w, sched, unifex::seq); };
   if (w->sched == 0) go(unifex::inline_scheduler{});
   else if (w->sched == 1) { arena_box<unifex::single_thread_context> ctx; ctx.construct(); go(ctx->get_scheduler()); ctx.destroy(); }
-  else { arena_box<unifex::static_thread_pool> pool; pool.construct(2u); go(pool->get_scheduler()); pool.destroy(); }
+  else if (w->sched == 2) { arena_box<unifex::static_thread_pool> pool; pool.construct(2u); go(pool->get_scheduler()); pool.destroy(); }
+  else go(par_sched{2 + draw(2)});
   {
     usim::np_scope np;
     long expect = first < 0 ? w->n : first;
